@@ -496,7 +496,11 @@ class Exec:
         if m:
             a_, b_ = [O(x) for x in split_top(m.group(2))]; op = m.group(1)
             def f(fr):
-                a, b = a_(fr), b_(fr); n = a.size(); za, zb = z3.ZeroExt(n, a), z3.ZeroExt(n, b)
+                a, b = a_(fr), b_(fr)
+                if a.size() != b.size():
+                    # an integer that reached this point through a model at a wider width (e.g. the items of a Range<u32> iterator): the narrower operand has the MIR type
+                    n0 = min(a.size(), b.size()); a = z3.Extract(n0 - 1, 0, a) if a.size() > n0 else a; b = z3.Extract(n0 - 1, 0, b) if b.size() > n0 else b
+                n = a.size(); za, zb = z3.ZeroExt(n, a), z3.ZeroExt(n, b)
                 if op == 'Sub': return Struct({0: a - b, 1: z3.ULT(a, b)}, 'tuple')
                 wide = za + zb if op == 'Add' else za * zb
                 return Struct({0: z3.Extract(n - 1, 0, wide), 1: z3.Extract(2 * n - 1, n, wide) != 0}, 'tuple')
